@@ -731,7 +731,8 @@ pub fn run(rep: &mut Report, tier: Tier) {
     let far = Budget::new(100_000);
     let share = tier.pick(35.0, 600.0);
     let start = std::time::Instant::now();
-    for (spec, min, max) in [(t_tok_small(), tier.pick(6, 7), tier.pick(12, 13)), (t_tok(), tier.pick(5, 6), tier.pick(10, 11))] {
+    // (quick: fixed depths, always completed - the same nodes on every machine)
+    for (spec, min, max) in [(t_tok_small(), tier.pick(12, 7), tier.pick(12, 13)), (t_tok(), tier.pick(10, 6), tier.pick(10, 11))] {
         let mut done = 0;
         let mut last = None;
         let mut prev = 0u64;
